@@ -133,10 +133,11 @@ def expand(ctx: Ctx, pid: str, fam: list[dict], rng: random.Random) -> tuple[lis
     if pid == "C11":
         nb = 10 if quick else 60
         bases = (pick(lambda d: d["phases"] == ["coverage", "fuzzing"] and d["workers"] >= 2, nb // 3 + 1)
-                 + pick(lambda d: "stateful" in d["phases"] and len(d["phases"]) == 2, nb // 3 + 1)
+                 + pick(lambda d: "stateful" in d["phases"] and len(d["phases"]) == 2 and d["links"] != "none", nb // 3 + 1)
                  + pick(lambda d: len(d["phases"]) == 4, nb // 5 + 1)
                  + pick(lambda d: d["phases"][0] == "probing", nb // 5 + 1)
-                 + pick(lambda d: d["phases"] == ["stateful"], nb // 5 + 1))
+                 + pick(lambda d: d["phases"] == ["stateful"] and d["links"] != "none", nb // 5 + 1)
+                 + pick(lambda d: "stateful" in d["phases"] and d["links"] == "none", 2 if quick else 8))     # stateful selected, API without links
         recipe = {"stop": "all", "ctrlc": "all", "faults": 2 if quick else 6}
         # transient internal errors inside stateful steps (status consistency between scenario, suite and phase)
         bases = bases + [{"ops": ["ok"], "links": lk, "phases": ["stateful"], "workers": 1, "max_failures": 0, "cof": False,
@@ -160,7 +161,7 @@ def expand(ctx: Ctx, pid: str, fam: list[dict], rng: random.Random) -> tuple[lis
         bases = (pick(lambda d: d["max_failures"] > 0 and any(b in ("bad", "neterr") for b in d["ops"]), nb // 3)
                  + pick(lambda d: d["unique"], nb // 4)
                  + pick(lambda d: d["max_failures"] == 0 and all(b in ("ok", "badif") for b in d["ops"]), nb // 4)
-                 + pick(lambda d: "stateful" in d["phases"], nb // 6 + 1))
+                 + pick(lambda d: "stateful" in d["phases"] and d["links"] != "none", nb // 6 + 1))
         recipe = {"stop": 6 if quick else 25, "ctrlc": 0, "faults": 0}
         # rate limit: a few runs long enough to overflow one window, several worker counts
         rate_bases = [{"ops": ["ok", "ok", "ok"], "links": "none", "phases": ["coverage", "fuzzing"], "workers": w, "max_failures": 0,
@@ -365,8 +366,6 @@ def stateful_trace_lines(run: dict) -> "list[dict] | str":
     hdr = run["hdr"]
     if hdr is None or hdr.get("cli") or hdr["enabled"] != [False, False, False, False, True]:
         return "not-stateful-only"      # unit phases are Engine.tla's
-    if hdr["unique"]:
-        return "unique-inputs"          # a step may be answered from the outcome cache without a request
     if any(ln["e"] in ("CRASH", "HANG", "TDEATH") for ln in run["lines"]):
         return "crash-or-hang"          # judged by EngineStream (NoCrash / Terminates / the death is a fault)
     out = []
@@ -406,7 +405,7 @@ def action_level_stateful(ctx: Ctx, runs: list[dict]) -> dict:
                 skipped[lines] = skipped.get(lines, 0) + 1
             continue
         key = (int(r["hdr"]["steps"]), int(r["hdr"]["maxfail"]))
-        batches.setdefault(key, []).append({"stop": any(ln["e"] == "STOP" for ln in lines), "lines": lines})
+        batches.setdefault(key, []).append({"stop": any(ln["e"] == "STOP" for ln in lines), "unique": bool(r["hdr"]["unique"]), "lines": lines})
         index.setdefault(key, []).append(i)
     info = {"runs": 0, "accepted": 0, "rejected": [], "states": 0, "outside_fragment": skipped, "batches": len(batches)}
     jobs = []
